@@ -1362,6 +1362,11 @@ def _build_fn(sf: SourceFile, item: Item, impl, ex: Extract, props, rep, unit, a
     for (where, anchor, k, text) in ex.inserts:
         pat = pat_tokens(anchor)
         hits = _find_seq_any(body_toks, pat)
+        if len(hits) == 0 and k == 1 and len(pat) >= 4:
+            fz = _find_seq_fuzzy(body_toks, pat)
+            if len(fz) == 1:
+                hits = fz
+                rep.append(("hint", f"proof-hint anchor {anchor!r}: exact text gone, attached to the unique statement that differs only in renamed identifiers"))
         if len(hits) < k:
             rep.append(("LOST", f"proof-hint anchor {anchor!r} #{k} not found ({len(hits)} hits): hint dropped"))
             continue
@@ -1555,6 +1560,36 @@ def _find_seq_any(toks, pat):
     res = []
     for a in range(0, len(sigs) - m + 1):
         if all(toks[sigs[a + b]].text == pat[b] for b in range(m)):
+            res.append((sigs[a], sigs[a + m - 1]))
+    return res
+
+
+_KW = {"as", "break", "const", "continue", "crate", "else", "enum", "false", "fn", "for", "if", "impl", "in", "let", "loop",
+       "match", "mod", "move", "mut", "pub", "ref", "return", "self", "Self", "static", "struct", "super", "trait", "true",
+       "type", "unsafe", "use", "where", "while", "async", "await", "dyn"}
+
+
+def _find_seq_fuzzy(toks, pat, max_diff=2):
+    """windows of the same length as `pat` that differ from it only in at most `max_diff` plain identifiers
+    (a renamed local): used for proof-hint anchors when the exact text is gone"""
+    sigs = [i for i, t in enumerate(toks) if t.kind not in (WS, COMMENT, "raw")]
+    m = len(pat)
+    res = []
+    ident = re.compile(r"^[A-Za-z_]\w*$")
+    for a in range(0, len(sigs) - m + 1):
+        diff = 0
+        ok = True
+        for b in range(m):
+            tt = toks[sigs[a + b]].text
+            if tt == pat[b]:
+                continue
+            if ident.match(tt) and ident.match(pat[b]) and tt not in _KW and pat[b] not in _KW and b > 0:
+                diff += 1
+                if diff > max_diff:
+                    ok = False; break
+            else:
+                ok = False; break
+        if ok and diff > 0:
             res.append((sigs[a], sigs[a + m - 1]))
     return res
 
